@@ -108,6 +108,12 @@ namespace fastscapelib
                 graph_impl_snapshot.m_receivers_count = graph_impl.m_receivers_count;
                 graph_impl_snapshot.m_donors_count = graph_impl.m_donors_count;
                 graph_impl_snapshot.m_dfs_indices = graph_impl.m_dfs_indices;
+                graph_impl_snapshot.m_bfs_indices = graph_impl.m_bfs_indices;
+                graph_impl_snapshot.m_bfs_levels = graph_impl.m_bfs_levels;
+                graph_impl_snapshot.m_donors = graph_impl.m_donors;
+                graph_impl_snapshot.m_base_levels = graph_impl.m_base_levels;
+                graph_impl_snapshot.m_mask = graph_impl.m_mask;
+                graph_impl_snapshot.m_mask_initialized = graph_impl.m_mask_initialized;
 
                 if (graph_impl_snapshot.single_flow())
                 {
@@ -118,15 +124,12 @@ namespace fastscapelib
                     receivers_distance_col = xt::col(graph_impl.m_receivers_distance, 0);
                     auto receivers_weight_col = xt::col(graph_impl_snapshot.m_receivers_weight, 0);
                     receivers_weight_col = xt::col(graph_impl.m_receivers_weight, 0);
-                    auto donors_col = xt::col(graph_impl_snapshot.m_donors, 0);
-                    donors_col = xt::col(graph_impl.m_donors, 0);
                 }
                 else
                 {
                     graph_impl_snapshot.m_receivers = graph_impl.m_receivers;
                     graph_impl_snapshot.m_receivers_distance = graph_impl.m_receivers_distance;
                     graph_impl_snapshot.m_receivers_weight = graph_impl.m_receivers_weight;
-                    graph_impl_snapshot.m_donors = graph_impl.m_donors;
                 }
             }
 
